@@ -27,7 +27,7 @@ type c04Rule struct {
 	Id      string   `json:"id"`
 	When    string   `json:"when"`    // "const" | "arr" | "other"
 	Cond    string   `json:"cond"`    // "" | "f" | "join" | "or" | "none-match"
-	Actions []string `json:"actions"` // "value" | "out" | "throw" | "syntax" | "addfact"
+	Actions []string `json:"actions"` // "value" | "out" | "throw" | "syntax" | "addfact" | "mark"
 	Serial  bool     `json:"serial"`
 }
 
@@ -70,7 +70,7 @@ func genC04(t *rapid.T) c04Case {
 		r.Cond = rapid.SampledFrom([]string{"", "", "f", "f", "join", "or", "none-match", "orcode", "notcode"}).Draw(t, l+".cond")
 		na := rapid.IntRange(1, 3).Draw(t, l+".nactions")
 		for j := 0; j < na; j++ {
-			r.Actions = append(r.Actions, rapid.SampledFrom([]string{"value", "value", "value", "out", "throw", "syntax", "addfact", "addfact"}).Draw(t, fmt.Sprintf("%s.a%d", l, j)))
+			r.Actions = append(r.Actions, rapid.SampledFrom([]string{"value", "value", "value", "out", "throw", "syntax", "addfact", "addfact", "mark", "mark"}).Draw(t, fmt.Sprintf("%s.a%d", l, j)))
 		}
 		r.Serial = rapid.IntRange(0, 3).Draw(t, l+".serial") == 0
 		c.Rules = append(c.Rules, r)
@@ -100,6 +100,11 @@ func c04ActionCode(ruleId string, k int, kind string) string {
 		return obj
 	case "out":
 		return fmt.Sprintf("Env.out('%s/%d'); %s", ruleId, k, obj)
+	case "mark":
+		// scribbles on its view of the event (counting earlier scribbles)
+		// before returning like "value": every execution has a view of
+		// its own, so each must count exactly one
+		return fmt.Sprintf("event.mark = (event.mark || 0) + 1; %s", obj)
 	case "addfact":
 		// writes a fact of its own into the location, then returns like "value"
 		return fmt.Sprintf("var u = function(v) { return typeof v === 'undefined' ? '_' : v; }; var mid = 'm/' + ruleId + '/%d/' + [u(typeof x === 'undefined' ? undefined : x), u(typeof y === 'undefined' ? undefined : y), u(typeof z === 'undefined' ? undefined : z)].join(','); Env.AddFact(mid, {made: mid}); %s", k, obj)
@@ -229,7 +234,7 @@ func runC04(c c04Case) *vlib.Outcome {
 						ex := c04Exec{r.Id, refmatch.Key(b2), c04ActionCode(r.Id, k, a)}
 						e := expected[ex]
 						if e == nil {
-							e = &expExec{ok: a == "value" || a == "out" || a == "addfact", bind: b2}
+							e = &expExec{ok: a == "value" || a == "out" || a == "addfact" || a == "mark", bind: b2}
 							if a == "addfact" {
 								e.made = c04MadeId(r.Id, k, b2)
 							}
@@ -270,6 +275,10 @@ func runC04(c c04Case) *vlib.Outcome {
 		ctx.AddProp("out", outs)
 		work, cond := w.locs["L"].ProcessEvent(ctx, core.Map(event))
 		when := fmt.Sprintf("[%s] case %s", kind, vlib.JSON(c))
+		if _, marked := event["mark"]; marked || len(event["e"].(A)) != len(c.E) {
+			o.Fail("CALLERS_EVENT_MODIFIED", "%s: after ProcessEvent the caller's event is %s", when, vlib.JSON(event))
+			return o
+		}
 		if work == nil {
 			o.Fail("NO_WORK", "%s: ProcessEvent returned no work tree (%v)", when, cond)
 			return o
@@ -327,8 +336,14 @@ func runC04(c c04Case) *vlib.Outcome {
 					if v["loc"] != "L" {
 						o.Fail("WRONG_LOCATION_VISIBLE", "%s: execution %v saw location %v", when, ex, v["loc"])
 					}
-					if !refmatch.Equal(refmatch.Canon(v["ev"]), refmatch.Canon(event), false) {
-						o.Fail("WRONG_EVENT_VISIBLE", "%s: execution %v saw event %s", when, ex, vlib.JSON(v["ev"]))
+					wantEv := interface{}(event)
+					if strings.HasPrefix(code, "event.mark") {
+						// its own scribbles, and nobody else's
+						wantEv = M{"t": "go", "e": A(c.E), "mark": 1.0}
+						o.Label("action-writes-to-its-event")
+					}
+					if !refmatch.Equal(refmatch.Canon(v["ev"]), refmatch.Canon(wantEv), false) {
+						o.Fail("WRONG_EVENT_VISIBLE", "%s: execution %v saw event %s, expected %s", when, ex, vlib.JSON(v["ev"]), vlib.JSON(wantEv))
 					}
 					for _, name := range []string{"x", "y", "z"} {
 						wantv, bound := e.bind["?"+name]
